@@ -205,7 +205,7 @@ func (t *Task) resolveMod(env *ExprEnv, item, src string) []modTarget {
 		}
 		// ghost views of the same field (e.g. the boolean view of an atomic.Bool)
 		for name, srt := range t.arrSort {
-			if !seen[name] && strings.HasPrefix(name, prefix+"."+f.Name()+".") && strings.HasPrefix(srt, "(Array Int") {
+			if !seen[name] && (strings.HasPrefix(name, prefix+"."+f.Name()+".") || strings.HasPrefix(name, prefix+"."+f.Name()+"#")) && strings.HasPrefix(srt, "(Array Int") {
 				out = append(out, modTarget{array: name, ref: ref})
 			}
 		}
